@@ -20,6 +20,36 @@ def band(value, cap):
     return min(int(value / cap * 9) + 1, 10)
 
 
+FLAGS = {}        # hostname -> {"services": bool, "applications": bool, "file_system": bool}, read from the SCENARIO (set by the walker)
+
+
+def set_flags_from_config(cfg):
+    """the requires-scan switches as the scenario states them: nodes level (default True), overridden per host when given."""
+    FLAGS.clear()
+    for a in cfg.get("agents", []):
+        if a.get("type") != "proxy-agent":
+            continue
+        osp = a.get("observation_space") or {}
+        comps = (osp.get("options") or {}).get("components", []) if osp.get("type") == "custom" else []
+        for c in comps:
+            if c.get("type") != "nodes":
+                continue
+            o = c.get("options") or {}
+            top = {"services": o.get("services_requires_scan", True), "applications": o.get("applications_requires_scan", True), "file_system": o.get("file_system_requires_scan", True)}
+            top = {k: (True if v is None else bool(v)) for k, v in top.items()}
+            for h in o.get("hosts", []) or []:
+                f = dict(top)
+                for k, key in (("services", "services_requires_scan"), ("applications", "applications_requires_scan"), ("file_system", "file_system_requires_scan")):
+                    if h.get(key) is not None:
+                        f[k] = bool(h[key])
+                FLAGS[h["hostname"]] = f
+
+
+def _flag(host, kind, fallback):
+    f = FLAGS.get(host)
+    return fallback if f is None else f[kind]
+
+
 def service(o, node):
     if o.where is None or node is None:
         return {"operating_status": 0, "health_status": 0}
@@ -32,7 +62,7 @@ def service(o, node):
     if type(s).__name__ in ("FTPServer", "FTPClient") and op == 1 and not getattr(s, "_active", False):
         op = 2
     return {"operating_status": op,
-            "health_status": (s.health_state_visible if o.services_requires_scan else s.health_state_actual).value}
+            "health_status": (s.health_state_visible if _flag(node.config.hostname, "services", o.services_requires_scan) else s.health_state_actual).value}
 
 
 def application(o, node):
@@ -43,11 +73,11 @@ def application(o, node):
     if not isinstance(a, Application) or a.uuid not in node.applications:
         return {"operating_status": 0, "health_status": 0, "num_executions": 0}
     return {"operating_status": a.operating_state.value,
-            "health_status": (a.health_state_visible if o.applications_requires_scan else a.health_state_actual).value,
+            "health_status": (a.health_state_visible if _flag(node.config.hostname, "applications", o.applications_requires_scan) else a.health_state_actual).value,
             "num_executions": cat(o.low_app_execution_threshold, o.med_app_execution_threshold, o.high_app_execution_threshold, a.num_executions)}
 
 
-def file_(o, folder):
+def file_(o, folder, host=None):
     d = {"health_status": 0}
     if o.include_num_access:
         d["num_access"] = 0
@@ -56,7 +86,7 @@ def file_(o, folder):
     f = next((x for x in folder.files.values() if x.name == o.where[-1]), None)
     if f is None:
         return d
-    d["health_status"] = (f.visible_health_status if o.file_system_requires_scan else f.health_status).value
+    d["health_status"] = (f.visible_health_status if _flag(host, "file_system", o.file_system_requires_scan) else f.health_status).value
     if o.include_num_access:
         d["num_access"] = cat(o.low_file_access_threshold, o.med_file_access_threshold, o.high_file_access_threshold, f.num_access)
     return d
@@ -68,9 +98,9 @@ def folder_(o, node):
     if o.where is not None and node is not None:
         fo = next((x for x in node.file_system.folders.values() if x.name == o.where[-1]), None)
     if fo is not None:
-        d["health_status"] = (fo.visible_health_status if o.file_system_requires_scan else fo.health_status).value
+        d["health_status"] = (fo.visible_health_status if _flag(node.config.hostname, "file_system", o.file_system_requires_scan) else fo.health_status).value
     if o.files:
-        d["FILES"] = {i + 1: file_(f, fo) for i, f in enumerate(o.files)}
+        d["FILES"] = {i + 1: file_(f, fo, node.config.hostname if node is not None else None) for i, f in enumerate(o.files)}
     return d
 
 
